@@ -76,7 +76,9 @@ def library_formula(case, cnfgen, cap=True):
     """the documented library call for an abstract command; raises TooBig when a step would be too large"""
     from cnfgen.formula.cnf import CNF
     sub, a, fl = case['sub'], case['args'], set(case.get('flags', []))
-    if sub == 'php':
+    if case.get('graph'):
+        F = library_graph_formula(case, cnfgen)
+    elif sub == 'php':
         f, o = '--functional' in fl, '--onto' in fl
         if len(a) == 1:
             F = cnfgen.PigeonholePrinciple(a[0] + 1, a[0], functional=f, onto=o)
@@ -150,6 +152,56 @@ class TooBig(Exception):
     pass
 
 
+def library_graph(g, cnfgen):
+    """the graph object a deterministic graph argument names, built with the documented constructors"""
+    from cnfgen import graphs
+    kind, cons, nums = g
+    if kind == 'simple':
+        return cnfgen.Graph.complete_graph(nums[0]) if cons == 'complete' else cnfgen.Graph.empty_graph(nums[0])
+    if kind == 'bipartite':
+        if cons == 'complete':
+            return graphs.CompleteBipartiteGraph(nums[0], nums[1])
+        if cons == 'empty':
+            return cnfgen.BipartiteGraph(nums[0], nums[1])
+        return graphs.bipartite_shift(nums[0], nums[1], pattern=list(nums[2:]))
+    return {'path': graphs.dag_path, 'tree': graphs.dag_complete_binary_tree, 'pyramid': graphs.dag_pyramid}[cons](nums[0])
+
+
+def library_graph_formula(case, cnfgen):
+    sub, a, fl = case['sub'], case['args'], set(case.get('flags', []))
+    G = library_graph(case['graph'], cnfgen)
+    if sub == 'kcolor':
+        return cnfgen.GraphColoringFormula(G, a[0])
+    if sub == 'ec':
+        return cnfgen.EvenColoringFormula(G)
+    if sub == 'tiling':
+        return cnfgen.Tiling(G)
+    if sub == 'matching':
+        return cnfgen.PerfectMatchingPrinciple(G)
+    if sub == 'kclique':
+        return cnfgen.CliqueFormula(G, a[0], '--no-symmetry-breaking' not in fl)
+    if sub == 'kcliquebin':
+        return cnfgen.BinaryCliqueFormula(G, a[0])
+    if sub == 'domset':
+        return cnfgen.DominatingSet(G, a[0], alternative=bool(fl & {'--alternative', '-a'}))
+    if sub == 'tseitin':
+        n = G.number_of_vertices()
+        charge = {'first': [1] + [0] * (n - 1), 'zero': [0] * n, 'one': [1] * n}[case['charge']]
+        return cnfgen.TseitinFormula(G, charge)
+    if sub == 'php':
+        return cnfgen.GraphPigeonholePrinciple(G, functional='--functional' in fl, onto='--onto' in fl)
+    if sub == 'subsetcard':
+        return cnfgen.SubsetCardinalityFormula(G, bool(fl & {'--equal', '-e'}))
+    if sub == 'op':
+        kn = 2 if '--knuth2' in fl else 3 if '--knuth3' in fl else 0
+        return cnfgen.GraphOrderingPrinciple(G, bool(fl & {'--total', '-t'}), bool(fl & {'--smart', '-s'}), bool(fl & {'--plant', '-p'}), kn)
+    if sub == 'peb':
+        return cnfgen.PebblingFormula(G)
+    if sub == 'stone':
+        return cnfgen.StoneFormula(G, a[0])
+    raise KeyError(sub)
+
+
 def check_size(F, name, ks):
     """refuse a transformation step whose result could be large: bound on the number of clauses the
     substitution produces (product over the literals of a clause of the gadget sizes)"""
@@ -198,6 +250,10 @@ def render(rng, case, quiet=None):
     """argv (sys.argv[1:]) of an abstract command"""
     q = quiet if quiet is not None else rng.choice([['-q'], ['-q'], ['--quiet'], ['-q', '-q'], ['--quiet', '-q']])
     args = [tok(rng, z, case.get('plain')) for z in case['args']]
+    if case.get('charge'):
+        args = [case['charge']] + args
+    if case.get('graph'):
+        args += [case['graph'][1]] + [tok(rng, z, case.get('plain')) for z in case['graph'][2]]
     flags = list(case.get('flags', []))
     rng.shuffle(flags)
     cut = rng.randint(0, len(flags))
@@ -249,6 +305,49 @@ def gen_base(rng, small=False):
     return dict(sub=sub, args=[])
 
 
+def gen_graph(rng, kind, small=False):
+    hi = 4 if small else 6
+    if kind == 'simple':
+        return ('simple', rng.choice(['complete', 'complete', 'empty']), [rng.choice([1, 1, 2, 3, rng.randint(1, hi)])])
+    if kind == 'bipartite':
+        L, R = rng.randint(1, 4), rng.randint(1, 4)
+        c = rng.choice(['complete', 'empty', 'shift', 'shift'])
+        if c == 'shift':
+            pat = sorted(rng.sample(range(0, R + 1), rng.randint(0, min(3, R + 1))))
+            if rng.random() < 0.3:
+                rng.shuffle(pat)
+            return ('bipartite', c, [L, R] + pat)
+        return ('bipartite', c, [L, R])
+    c = rng.choice(['path', 'tree', 'pyramid'])
+    return ('dag', c, [rng.choice([0, 1, 2, 3]) if c != 'path' else rng.randint(0, 5)])
+
+
+def gen_graph_base(rng, small=False):
+    """one abstract formula command with a deterministic graph argument"""
+    sub = rng.choice(['kcolor', 'ec', 'tiling', 'matching', 'kclique', 'kcliquebin', 'domset', 'tseitin', 'tseitin', 'php', 'subsetcard', 'op', 'peb', 'stone'])
+    if sub == 'kcolor':
+        return dict(sub=sub, args=[rng.randint(1, 3)], graph=gen_graph(rng, 'simple', small))
+    if sub in ('ec', 'tiling', 'matching'):
+        return dict(sub=sub, args=[], graph=gen_graph(rng, 'simple', small))
+    if sub == 'kclique':
+        return dict(sub=sub, args=[rng.randint(0, 3)], graph=gen_graph(rng, 'simple', small), flags=rng.choice([[], ['--no-symmetry-breaking']]))
+    if sub == 'kcliquebin':
+        return dict(sub=sub, args=[rng.randint(0, 3)], graph=gen_graph(rng, 'simple', small))
+    if sub == 'domset':
+        return dict(sub=sub, args=[rng.randint(1, 3)], graph=gen_graph(rng, 'simple', small), flags=rng.choice([[], ['--alternative'], ['-a']]))
+    if sub == 'tseitin':
+        return dict(sub=sub, args=[], charge=rng.choice(['first', 'zero', 'one']), graph=gen_graph(rng, 'simple', small))
+    if sub == 'php':
+        return dict(sub=sub, args=[], graph=gen_graph(rng, 'bipartite', small), flags=rng.choice(PHP_FLAGS))
+    if sub == 'subsetcard':
+        return dict(sub=sub, args=[], graph=gen_graph(rng, 'bipartite', small), flags=rng.choice([[], ['-e'], ['--equal']]))
+    if sub == 'op':
+        return dict(sub=sub, args=[], graph=gen_graph(rng, 'simple', small), flags=rng.choice(OP_VARIANTS) + rng.choice(OP_PLANT))
+    if sub == 'peb':
+        return dict(sub=sub, args=[], graph=gen_graph(rng, 'dag', small))
+    return dict(sub=sub, args=[rng.randint(1, 3)], graph=gen_graph(rng, 'dag', small))
+
+
 def gen_chain(rng, maxlen=4):
     n = rng.choice([0, 0, 1, 1, 1, 2, 2, 3, 4][:5 + maxlen])
     ch = []
@@ -298,6 +397,32 @@ def gen_thresholds(rng, tier):
             out.append(dict(sub='cpls', args=[2, n & ~1 if n & (n - 1) else n, 2]))
         elif not quick and n <= 65:
             out.append(dict(sub='op', args=[n], flags=['--smart'] + rng.choice(OP_PLANT)))
+    # graph arguments behind the same thresholds
+    for n in sizes:
+        out.append(dict(sub='kcolor', args=[2], graph=('simple', 'empty', [n])))
+        out.append(dict(sub='tiling', args=[], graph=('simple', 'empty', [n])))
+        out.append(dict(sub='tseitin', args=[], charge=rng.choice(['first', 'zero', 'one']), graph=('simple', 'empty', [n])))
+        out.append(dict(sub='peb', args=[], graph=('dag', 'path', [n])))
+        out.append(dict(sub='stone', args=[1], graph=('dag', 'path', [min(n, 65)])))
+        out.append(dict(sub='php', args=[], graph=('bipartite', 'shift', [n, n + 1, 0, 1]), flags=rng.choice(PHP_FLAGS)))
+        out.append(dict(sub='subsetcard', args=[], graph=('bipartite', 'shift', [n, n, 0, 1, 2]), flags=rng.choice([[], ['-e']])))
+        out.append(dict(sub='php', args=[], graph=('bipartite', 'empty', [n, 1]), flags=rng.choice(PHP_FLAGS)))
+        if n <= 65:
+            out.append(dict(sub='kcolor', args=[2], graph=('simple', 'complete', [n])))
+            out.append(dict(sub='kclique', args=[2], graph=('simple', 'complete', [n]), flags=rng.choice([[], ['--no-symmetry-breaking']])))
+            out.append(dict(sub='kcliquebin', args=[2], graph=('simple', 'empty', [n])))
+            out.append(dict(sub='domset', args=[1], graph=('simple', 'empty', [n]), flags=rng.choice([[], ['-a']])))
+        if n <= 17:
+            out.append(dict(sub='matching', args=[], graph=('simple', 'complete', [n])))
+            out.append(dict(sub='tiling', args=[], graph=('simple', 'complete', [n])))
+            out.append(dict(sub='op', args=[], graph=('simple', 'complete', [n]), flags=rng.choice(OP_VARIANTS)))
+            out.append(dict(sub='peb', args=[], graph=('dag', 'pyramid', [n])))
+            out.append(dict(sub='php', args=[], graph=('bipartite', 'complete', [n, n - 1]), flags=rng.choice(PHP_FLAGS)))
+            out.append(dict(sub='domset', args=[2], graph=('simple', 'complete', [n])))
+    out.append(dict(sub='peb', args=[], graph=('dag', 'tree', [4])))
+    out.append(dict(sub='peb', args=[], graph=('dag', 'tree', [7 if not quick else 5])))
+    out.append(dict(sub='tseitin', args=[], charge='first', graph=('simple', 'complete', [7])))
+    out.append(dict(sub='ec', args=[], graph=('simple', 'complete', [7])))
     # arity 17 (and 16) of every transformation, on tiny formulas
     for k in (16, 17):
         for t in TRANS1:
@@ -334,11 +459,14 @@ ODD_OPTS = ['-h', '--help', '--functional', '--onto', '--total', '--smart', '-t'
             '--func', '--tot', '-ts', '--functional=1', '--', '--seed', '-o', '-V', '--varnames', '-of', '-l']
 
 
+CONSTRUCTIONS = ['complete', 'empty', 'shift', 'path', 'tree', 'pyramid', 'grid', 'torus']
+
+
 def gen_malformed(rng, case):
     """one mutation of the argv of a small valid command; returns (argv, kind)"""
     argv = render(rng, dict(case, plain=rng.random() < 0.8), quiet=['-q'])
     kind = rng.choice(['drop', 'extra', 'badint', 'negint', 'unknown', 'oddopt', 'T-insert', 'T-end', 'T-double', 'T-begin', 'badname', 'badtrans',
-                       'conflict', 'no-formula', 'mid-flag', 'swap', 'dup', 'empty-token'])
+                       'conflict', 'no-formula', 'mid-flag', 'swap', 'dup', 'empty-token', 'graph-word', 'graph-word', 'graph-tail'])
     body = [i for i in range(len(argv)) if i >= 1]
     if kind == 'drop' and len(argv) > 1:
         del argv[rng.choice(body)]
@@ -388,6 +516,17 @@ def gen_malformed(rng, case):
     elif kind == 'dup' and len(argv) > 1:
         i = rng.choice(body)
         argv.insert(i, argv[i])
+    elif kind == 'graph-word':
+        words = [i for i in body if argv[i] in CONSTRUCTIONS]
+        if words:
+            argv[rng.choice(words)] = rng.choice(CONSTRUCTIONS + ['clique', 'Complete', 'gnp', 'kthlist', 'simple', 'bipartite', 'dag', 'first', 'save'])
+        else:
+            argv.insert(rng.randint(2, len(argv)), rng.choice(CONSTRUCTIONS))
+    elif kind == 'graph-tail':
+        words = [i for i in body if argv[i] in CONSTRUCTIONS]
+        tail = rng.choice([['foo', '1'], ['plantclique'], ['addedges', 'x'], ['save'], ['simple'], ['complete', '2'], ['-1'], ['1', '2', '3'], ['0']])
+        j = len(argv) if not words or '-T' not in argv else argv.index('-T')
+        argv[j:j] = tail
     elif kind == 'empty-token':
         argv.insert(rng.randint(1, len(argv)), '')
     return argv, kind
@@ -399,7 +538,8 @@ def gen_malformed(rng, case):
 def site_of(argv):
     """<sub-command>[+T]: deterministic classification of an argv"""
     sub = next((a for a in argv if not a.startswith('-')), '-')
-    known = {'php', 'bphp', 'rphp', 'count', 'parity', 'cliquecoloring', 'op', 'ram', 'vdw', 'ptn', 'cpls', 'and', 'or', 'true', 'false'}
+    known = {'php', 'bphp', 'rphp', 'count', 'parity', 'cliquecoloring', 'op', 'ram', 'vdw', 'ptn', 'cpls', 'and', 'or', 'true', 'false',
+             'kcolor', 'ec', 'tiling', 'matching', 'kclique', 'kcliquebin', 'domset', 'tseitin', 'subsetcard', 'peb', 'stone'}
     return 'pipeline:' + (sub if sub in known else 'other')
 
 
@@ -411,11 +551,12 @@ def cls_of(argv, stream, kind=None):
     return (','.join(opts) or 'plain') + ('|T:' + ','.join(sorted(set(trans))) if trans else '')
 
 
-def model_replies(ctx, argvs, name='pipeline', chunk=250):
-    reps = []
+def model_replies(ctx, argvs, name='pipeline', chunk=120, workers=8):
+    """the driver's answers, in order; the requests are spread over several driver processes"""
     t0 = time.time()
-    for i in range(0, len(argvs), chunk):
-        reps += ctx.model.batch([cmd(name, a) for a in argvs[i:i + chunk]], timeout=300)
+    chunks = [argvs[i:i + chunk] for i in range(0, len(argvs), chunk)]
+    res = clirun.parallel([(lambda c=c: ctx.model.batch([cmd(name, a) for a in c], timeout=300)) for c in chunks], workers=workers)
+    reps = [r for part in res for r in part]
     return reps, time.time() - t0
 
 
@@ -442,6 +583,10 @@ def run_pipeline(ctx):
         c = gen_base(rng)
         c['chain'] = gen_chain(rng)
         cases.append(dict(stream='valid', case=c, argv=render(rng, c)))
+    for _ in range(260 if quick else 2600):
+        c = gen_graph_base(rng)
+        c['chain'] = gen_chain(rng, maxlen=2)
+        cases.append(dict(stream='valid-graph', case=c, argv=render(rng, c)))
     # every option subset of php and op, exhaustively, with and without a transformation
     for fl in PHP_FLAGS:
         for a in ([2], [3, 2], [2, 3, 3], [0, 0], [1, 0], [0, 1]):
@@ -459,8 +604,8 @@ def run_pipeline(ctx):
         cases.append(dict(stream='thresholds', case=c, argv=render(rng, c)))
     # ---- malformed
     n_mal = 650 if quick else 6500
-    for _ in range(n_mal):
-        c = gen_base(rng, small=True)
+    for i in range(n_mal):
+        c = gen_base(rng, small=True) if i % 3 else gen_graph_base(rng, small=True)
         c['chain'] = gen_chain(rng, maxlen=2)
         argv, kind = gen_malformed(rng, c)
         cases.append(dict(stream='malformed', case=None, argv=argv, kind=kind))
